@@ -237,7 +237,7 @@ pub fn gen_body(rng: &mut Rng) -> BodyR {
         }
         9 if rng.chance(1, 2) => BodyR::Custom { kind: CustomKind::Chunked, ctype: Some(ONE_SHOT.into()), writes: gen_writes(rng) },
         9 => BodyR::Custom { kind: CustomKind::Empty, ctype: None, writes: vec![] },
-        _ => BodyR::Custom { kind: CustomKind::Chunked, ctype: if rng.chance(1, 3) { Some("text/x-stream".into()) } else { None }, writes: gen_writes(rng) },
+        _ => BodyR::Custom { kind: CustomKind::Chunked, ctype: match rng.below(4) { 0 => Some("text/x-stream".into()), 1 => Some(FLUSHING.into()), _ => None }, writes: gen_writes(rng) },
     }
 }
 
